@@ -2,6 +2,8 @@ package worlds
 
 import (
 	"fmt"
+	"go.minekube.com/gate/pkg/edition/java/auth"
+	"go.minekube.com/gate/pkg/edition/java/config"
 	"sort"
 	"strings"
 	"time"
@@ -27,7 +29,30 @@ func init() {
 
 func runC11(r *Run) {
 	var denyIdx map[int]bool
-	w := newClassic(r, []string{"lobby"}, nil)
+	// kick mode: a login with an already registered UUID disconnects the older session
+	// first; names are not unique then (the newest player owns the name entry)
+	kickMode := r.W.Pick(3) == 2
+	// online mode (session-server model): identities come from the session server, so two
+	// spellings of a name can carry the same or different UUIDs; kick mode only acts there
+	online := kickMode || r.W.Pick(4) == 0
+	var ss *sessionServer
+	var mkAuth func(w *classicWorld) auth.Authenticator
+	if online {
+		mkAuth = func(w *classicWorld) auth.Authenticator {
+			ss = &sessionServer{w: w, announced: map[string]string{}}
+			ss.Mode = func(int) string { return "" }
+			a, err := newOnlineAuthenticator(ss)
+			if err != nil {
+				r.HarnessError("auth.New: %v", err)
+				r.Abort()
+			}
+			return a
+		}
+	}
+	w := newClassicAuth(r, []string{"lobby"}, func(cfg *config.Config) {
+		cfg.OnlineModeKickExistingPlayers = kickMode
+		cfg.OnlineMode = online
+	}, mkAuth)
 	denyIdx = map[int]bool{}
 	nClients := 2 + r.W.Pick(5)
 	names := []string{"Alice", "alice", "ALICE", "Bob", "Alice", "Bob"}
@@ -59,7 +84,16 @@ func runC11(r *Run) {
 		if mode == 3 {
 			denyIdx[idx] = true
 		}
+		ownID := r.W.Pick(2) == 1 // this spelling has an identity of its own (else shared by all spellings)
 		c := w.addClient(name, prot, func(c *clientModel) {
+			if online {
+				ob := &onlineBehaviour{Secret: []byte("0123456789abcdef")}
+				if ownID {
+					id := onlineUUID("spelling:" + fmt.Sprintf("%x", c.Name))
+					ob.UUID = &id
+				}
+				installOnline(c, ss, ob)
+			}
 			if delay > 0 {
 				simrt.Sleep(delay, "c11.delay")
 			}
@@ -74,6 +108,12 @@ func runC11(r *Run) {
 			if !c.Login() {
 				return
 			}
+			if online {
+				r.Probe("online_login_ok")
+			}
+			if kickMode {
+				r.Probe("kick_mode_login_ok")
+			}
 			c.StartReader()
 			simrt.Sleep(stay, "c11.stay")
 			r.Op("leave")
@@ -83,25 +123,36 @@ func runC11(r *Run) {
 	}
 
 	var violated bool
+	lastOwner := map[string]string{} // lower-case name -> address of the last connection seen owning the name entry
 	check := func() {
-		if violated || !w.s.NoLocksHeld() {
+		if violated {
 			return
 		}
 		players := w.p.Players()
 		count := w.p.PlayerCount()
+		for _, n := range []string{"alice", "bob"} {
+			if pl := w.p.PlayerByName(n); pl != nil {
+				lastOwner[n] = hostOf(pl.RemoteAddr().String())
+			}
+		}
 		ids := map[string]bool{}
 		lower := map[string]string{}
 		for _, pl := range players {
+			if _, dup := lower[strings.ToLower(pl.Username())]; dup {
+				r.Probe("same_name_two_uuids_registered")
+			}
 			ids[pl.ID().String()] = true
 			ln := strings.ToLower(pl.Username())
-			if other, dup := lower[ln]; dup {
+			if other, dup := lower[ln]; dup && !kickMode {
 				violated = true
 				r.Fail("duplicate-name", "registry", "two registered players share the case-insensitive name %q (%s and %s)", ln, other, pl.RemoteAddr())
 				return
 			}
 			lower[ln] = pl.RemoteAddr().String()
 			byName := w.p.PlayerByName(pl.Username())
-			if byName == nil || byName.RemoteAddr().String() != pl.RemoteAddr().String() {
+			if kickMode {
+				// a newer player of the same name may own (or have owned) the name entry
+			} else if byName == nil || byName.RemoteAddr().String() != pl.RemoteAddr().String() {
 				violated = true
 				r.Fail("name-id-lookup-disagree", "registry", "Player(%s) is %s at %s but PlayerByName(%q) is %v", pl.ID(), pl.Username(), pl.RemoteAddr(), pl.Username(), byName)
 				return
@@ -138,7 +189,26 @@ func runC11(r *Run) {
 				r.Fail("registered-player-replaced", "ownership", "client %d (%s, %s) completed login and is still connected but Player(%s) is the connection from %s", c.idx, c.Name, c.IP, c.LoginSuccess.UUID, pl.RemoteAddr())
 				return
 			}
-			if bn := w.p.PlayerByName(c.Name); bn == nil || hostOf(bn.RemoteAddr().String()) != c.IP {
+			if bn := w.p.PlayerByName(c.Name); kickMode {
+
+				// the newest player of that (case-insensitive) name owns the entry
+				okOwner := false
+				if bn != nil {
+					for _, o := range w.clients {
+						if hostOf(bn.RemoteAddr().String()) == o.IP && strings.EqualFold(o.Name, c.Name) {
+							okOwner = true
+						}
+					}
+				} else {
+					// nobody: fine only if a newer player had replaced c's name entry
+					okOwner = lastOwner[strings.ToLower(c.Name)] != c.IP
+				}
+				if !okOwner {
+					violated = true
+					r.Fail("registered-player-vanished", "kick-mode-ownership-by-name", "client %d (%s, %s) completed login and is still connected but PlayerByName finds %v", c.idx, c.Name, c.IP, bn)
+					return
+				}
+			} else if bn == nil || hostOf(bn.RemoteAddr().String()) != c.IP {
 				violated = true
 				r.Fail("registered-player-vanished", "ownership-by-name", "client %d (%s, %s) completed login and is still connected but PlayerByName finds %v", c.idx, c.Name, c.IP, bn)
 				return
@@ -151,7 +221,16 @@ func runC11(r *Run) {
 		sort.Strings(st)
 		r.State(strings.Join(st, ","))
 	}
-	w.s.OnStep = func() { simrt.DriverCall(check) }
+	// the registry only changes inside proxy.go (register/unregister): evaluate after every
+	// step taken there and after every 6th step otherwise (anomalies persist)
+	w.s.OnStep = func() {
+		if w.s.Steps%6 != 0 {
+			if t := w.s.Tail(1); len(t) == 0 || !strings.HasPrefix(t[0].Site, "proxy.go") {
+				return
+			}
+		}
+		simrt.DriverCall(check)
+	}
 	why := w.s.RunUntil(20*time.Second, func() bool { return violated || w.allClientsDone() })
 	if r.Failed() {
 		return
@@ -189,7 +268,7 @@ func runC11(r *Run) {
 		for _, d := range discs {
 			if d.addr == c.IP {
 				n++
-				if c.LoginSuccess != nil && d.status != proxy.SuccessfulLoginStatus {
+				if c.LoginSuccess != nil && d.status != proxy.SuccessfulLoginStatus && !(kickMode && d.status == proxy.ConflictingLoginStatus) {
 					r.Fail("disconnect-status-wrong", "status", "client %d (%s) had completed login but its DisconnectEvent says login status %d", c.idx, c.Name, d.status)
 					return
 				}
@@ -204,7 +283,7 @@ func runC11(r *Run) {
 			return
 		}
 	}
-	r.Res.Sample = map[string]any{"clients": nClients, "protocol": int(prot), "phases": clientPhases(w), "disconnect_events": len(discs)}
+	r.Res.Sample = map[string]any{"kick_mode": kickMode, "online": online, "clients": nClients, "protocol": int(prot), "phases": clientPhases(w), "disconnect_events": len(discs)}
 }
 
 func clientPhases(w *classicWorld) []string {
